@@ -15,7 +15,7 @@
         {v1,v2,v3}  power 5  (> 2/3)              equivocation E2 on the genuine set
      and variants with arbitrary time (T3 future, P3 not later than the trusted header),
      supplied set not matching the header (V3), malformed (M3), an invalid signature (S3),
-     a header whose own set did not sign enough (N3), a genuine header with a thin commit
+     headers whose own set did not sign enough (N2, N3), a genuine header with a thin commit
      (R3x: same header hash as R3), and a foreign header G2 for backwards verification.
 
    Provider behaviours (tables: height+1 -> sequence of answers to successive requests)
@@ -59,6 +59,8 @@ AllBlocks ==
    L5 |-> Blk("L5", "L5", 5, 51, "X13", "X13", "X13", {"v1", "v3"}, {}, "L4", TRUE),
    E2 |-> Blk("E2", "E2", 2, 21, "A", "A", "A", {"v1", "v2", "v3"}, {}, "R1", TRUE),
    W3 |-> Blk("W3", "W3", 3, 31, "X3", "X3", "X3", {"v3"}, {}, "R2", TRUE),
+   W4 |-> Blk("W4", "W4", 4, 41, "X3", "X3", "X3", {"v3"}, {}, "R3", TRUE),
+   N2 |-> Blk("N2", "N2", 2, 21, "A", "A", "A", {"v1", "v2"}, {}, "R1", TRUE),
    Q3 |-> Blk("Q3", "Q3", 3, 31, "X1", "X1", "X1", {"v1"}, {}, "R2", TRUE),
    N3 |-> Blk("N3", "N3", 3, 31, "B", "B", "B", {"v2", "v3"}, {}, "R2", TRUE),
    T3 |-> Blk("T3", "T3", 3, 1000, "X13", "X13", "X13", {"v1", "v3"}, {}, "R2", TRUE),
@@ -97,6 +99,8 @@ Persona(H, name) ==
     [] name = "past3"     -> Tab(H, <<RName(H)>>, LAMBDA h : IF h = 3 THEN <<"P3">> ELSE <<RName(h)>>)
     [] name = "malformed3" -> Tab(H, <<RName(H)>>, LAMBDA h : IF h = 3 THEN <<"M3">> ELSE <<RName(h)>>)
     [] name = "badsig3"   -> Tab(H, <<RName(H)>>, LAMBDA h : IF h = 3 THEN <<"S3">> ELSE <<RName(h)>>)
+    \* a target that cannot be trusted directly, and invalid headers at the pivot heights
+    [] name = "weak4bad"  -> Tab(H, <<RName(H)>>, LAMBDA h : IF h = 4 THEN <<"W4">> ELSE IF h = 2 THEN <<"N2">> ELSE IF h = 3 THEN <<"N3">> ELSE <<RName(h)>>)
     [] name = "lunatic3"  -> Tab(H, <<RName(H)>>, LAMBDA h : IF h = 3 THEN <<"L3">> ELSE <<RName(h)>>)
 
 =============================================================================
